@@ -38,6 +38,10 @@ type C06Case struct {
 	// NoSteer: do not steer away from known findings (only set in witness files;
 	// generated cases never set it).
 	NoSteer bool `json:"no_steer,omitempty"`
+	// KeyClass: compare the key (first result column) up to SQLite equality (1 = 1.0),
+	// used by C07's generator, which deletes and re-inserts equal keys in another
+	// representation (known finding K5: the first representation is kept).
+	KeyClass bool `json:"key_class,omitempty"`
 }
 
 // c06Keys: keys of all four classes, pairwise distinct under SQLite equality,
@@ -340,6 +344,20 @@ func runC06(c C06Case, o *Obs) error {
 	if err := sc.Create(spec); err != nil {
 		return fmt.Errorf("create: %v", err)
 	}
+	canon := func(r Rows) Rows {
+		if !c.KeyClass {
+			return r
+		}
+		out := make(Rows, len(r))
+		for i, row := range r {
+			nr := append([]string(nil), row...)
+			if len(nr) > 0 {
+				nr[0] = cellKeyClass(nr[0])
+			}
+			out[i] = nr
+		}
+		return out
+	}
 	wt := int64(0)
 	inTxn := false
 	dirtyHandle := false // a statement failed / was rolled back on this handle (K4 precondition)
@@ -353,6 +371,7 @@ func runC06(c C06Case, o *Obs) error {
 		if err != nil {
 			return fmt.Errorf("%s: full scan fails: %v", where, err)
 		}
+		a, b = canon(a), canon(b)
 		if !a.Sorted().Equal(b.Sorted()) {
 			return fmt.Errorf("%s: table contents differ.\nnative:\n%ss3db:\n%s", where, a.Sorted(), b.Sorted())
 		}
@@ -454,6 +473,7 @@ func runC06(c C06Case, o *Obs) error {
 			if serr != nil {
 				return fmt.Errorf("%s: query fails on s3db (height %d): %v", where, h, serr)
 			}
+			a, b = canon(a), canon(b)
 			switch {
 			case op.Limit:
 				if len(a) != len(b) {
@@ -504,4 +524,15 @@ func TestC06_Diff(t *testing.T) {
 		"write_time strictly increases per statement (the property's precondition is non-decreasing; equal times are known finding K2)",
 		"multi-row INSERTs that fail part-way are compared only in autocommit mode on trees where known findings K3/K4 cannot trigger; the rest are counted under excluded")
 	checkRapid(t, st, genC06Case, runC06)
+}
+
+// cellKeyClass maps a canonical cell to one representative per SQLite-equality class.
+func cellKeyClass(cell string) string {
+	if strings.HasPrefix(cell, "R:") {
+		var bits uint64
+		if _, err := fmt.Sscanf(cell[2:], "%x", &bits); err == nil {
+			return keyClassID(Val{K: "r", F: bits})
+		}
+	}
+	return cell
 }
